@@ -18,5 +18,6 @@ INVARIANT ScoreRange
 INVARIANT ScorePerfect
 INVARIANT ErrNonNegative
 INVARIANT ZeroOnPerfect
+INVARIANT ZeroOnlyIfCovered
 INVARIANT StrategySides
 INVARIANT MatchIsNearest
